@@ -317,6 +317,16 @@ def createAuth (c : Caller) (s : St) (a : AuthRec) : Res Nat :=
   guarded (authorize c WriteAction UsersResourceType (some a.user) none) s <|
   guarded (verifyPermissions c a.perms) s (createAuthSvc s a)
 
+/-- authorization/middleware_auth.go `AuthedAuthorizationService.CreateAuthorization`: the same three
+    checks, then instance-type permissions are refused (a plain error: EInternal), then delegate.
+    (Its other five methods are textually those of authorizer/auth.go.) -/
+def createAuth2 (c : Caller) (s : St) (a : AuthRec) : Res Nat :=
+  guarded (authorize c WriteAction AuthorizationsResourceType none (some a.org)) s <|
+  guarded (authorize c WriteAction UsersResourceType (some a.user) none) s <|
+  guarded (verifyPermissions c a.perms) s <|
+  if a.perms.any (fun p => p.Resource.Type_ = InstanceResourceType) then (s, .error (.base .int))
+  else createAuthSvc s a
+
 def updateAuth (c : Caller) (s : St) (id : Nat) (active : Bool) : Res Nat :=
   fetchGuard (getAuth s id) (fun a => authorizeWriteAuth c id a) s (updateAuthSvc s id active)
 
@@ -372,6 +382,7 @@ def wstep (c : Caller) (s : St) : WOp → St × Ans
   | .ft t => ansRead s (findAuthByToken c s t) fun e => .auth e.1 e.2.org e.2.user
   | .la => ansRead s (findAuths c s) fun l => .auths (l.map au)
   | .ca a => ansMut s (createAuth c s a) none
+  | .ca2 a => ansMut s (createAuth2 c s a) none
   | .ua id act => ansMut s (updateAuth c s id act) (preAuth s id)
   | .da id => ansMut s (deleteAuth c s id) (preAuth s id)
 
